@@ -230,7 +230,7 @@ type mintSite struct {
 // onlyFrom: every root that reaches f is among the given roots.
 func (c *Ctx) onlyFrom(f *ssa.Function, allowed []*ssa.Function) bool {
 	rs := c.Roots()
-	for _, set := range [][]*ssa.Function{rs.Block, rs.Msg, rs.Gov, rs.InitGen, rs.Query, rs.ExportGen} {
+	for _, set := range [][]*ssa.Function{rs.Block, rs.Msg, rs.Gov, rs.InitGen, rs.Hooks, rs.Query, rs.ExportGen} {
 		for _, root := range set {
 			if isRoot(root, allowed) {
 				continue
